@@ -90,6 +90,9 @@ def run_shard(spec):
         if w.get("lane") == "checkpoint-header":
             checkpoint_header_lane(st, random.Random(1), 20)
             return st.result()
+        if w.get("lane") == "miner-route":
+            miner_route_lane(st, random.Random(1), 8)
+            return st.result()
         if w.get("lane") == "two-threads":
             two_thread_lane(st, random.Random(1), 12)
             return st.result()
@@ -142,6 +145,8 @@ def run_shard(spec):
     node_lane(st, rng, 25 if tier == "quick" else 400)
     checkpoint_header_lane(st, rng, 20 if tier == "quick" else 300)
     two_thread_lane(st, rng, 8 if tier == "quick" else 120)
+    if spec["shard"] % 4 == 0:
+        miner_route_lane(st, rng, 2 if tier == "quick" else 20)
     return st.result()
 
 
@@ -274,6 +279,30 @@ def two_thread_lane(st, rng, n):
         for co in codes:
             mon.set_local_events(tool, co, 0)
         mon.free_tool_id(tool)
+
+
+def miner_route_lane(st, rng, nsetups):
+    """the commitment on the route by which the node's own miner puts it into a header: C12's set-up (real MinerWatcher handlers,
+    several miner processes, transactions entering the pool and the head moving between a request and its hit); every block the
+    found-block handler builds with an id below its target must carry the commitment of ITS OWN transaction list"""
+    from skv.props import c12
+    mon = c12.Monitor()
+    env.boot()
+    for j in range(nsetups):
+        c12.run_setup(mon, rng, 7000 + j, 3)
+    env.set_retarget(ref.RETARGET_PERIOD)
+    st.c_extra["miner_route_found_blocks"] = st.c_extra.get("miner_route_found_blocks", 0) + mon.c.get("found_blocks", 0)
+    for v in mon.viol:
+        hx = v["witness"].get("candidate") if isinstance(v.get("witness"), dict) else None
+        bad = "merkle" in v["key"] or v["key"] == "found-block-differs-from-the-candidate-handed-out"
+        if hx and not bad:
+            try:
+                rb = ref.dec_block(bytes.fromhex(hx), strict=False)[0]
+                bad = rb.merkle != ref.merkle_root([t.id() for t in rb.txs])
+            except Exception:
+                bad = False
+        if bad:
+            st.v("miner-route:header-commitment-is-not-that-of-the-block's-transactions", v["msg"], dict(v["witness"], lane="miner-route"))
 
 
 def consensus_lane(st, rng, n):
